@@ -17,9 +17,12 @@ import (
 	log "github.com/sirupsen/logrus"
 )
 
+const maxPartitionCount uint32 = 1024
+
 var (
 	DatasetNotFoundErr      error = errors.New("Dataset not found")
 	DatasetAlreadyExistsErr error = errors.New("Dataset already exists")
+	InvalidDatasetErr       error = errors.New("Dataset needs a dimension of at least 1, a known space, 1 to 1024 partitions and a replication factor of at least 1")
 )
 
 type DatasetManager struct {
@@ -104,6 +107,11 @@ func (this *DatasetManager) Get(id uuid.UUID) (*Dataset, error) {
 }
 
 func (this *DatasetManager) Create(ctx context.Context, dataset *pb.Dataset) (*Dataset, error) {
+	if _, knownSpace := pb.Space_name[int32(dataset.GetSpace())]; !knownSpace || dataset.GetDimension() < 1 ||
+		dataset.GetPartitionCount() < 1 || dataset.GetPartitionCount() > maxPartitionCount || dataset.GetReplicationFactor() < 1 {
+		return nil, InvalidDatasetErr
+	}
+
 	ctx, cancelCtx := context.WithTimeout(ctx, 1*time.Second)
 	defer cancelCtx()
 
